@@ -28,7 +28,7 @@ $CC $CFLAGS -c vsched.c -o "$OUT/obj/h_vsched.o"
 $CC $CFLAGS -c twh.c -o "$OUT/obj/h_twh.o"
 $CC $LDX -o "$OUT/twh" $(ls "$OUT"/obj/*.o | grep -v '/d_') -Wl,--wrap=pthread_create,--wrap=pthread_join,--wrap=gettimeofday -lm -lpthread
 # component drivers (link the same core objects, own verif_hook, real threads)
-for d in termdrv; do
+for d in termdrv topodrv randdrv; do
   if [ -f "$d.c" ]; then
     $CC $CFLAGS -c $d.c -o "$OUT/obj/d_$d.o"
     $CC $LDX -o "$OUT/$d" $(ls "$OUT"/obj/*.o | grep -v '/h_\|/d_') "$OUT/obj/d_$d.o" -lm -lpthread
